@@ -6,9 +6,31 @@ from .oracle import M, P10, INT_TYPES, OP_INT_TYPES, MODES
 I128_MIN = -(1 << 127)
 
 
+TYPE_BITS = (7, 8, 15, 16, 24, 31, 32, 53, 63, 64, 68, 96, 126)
+
+
+def type_boundary_coeffs():
+    """+-(2^k - 1), +-2^k, +-(2^k + 1) for the widths of the primitive types (narrow-type fast paths)."""
+    out = []
+    for k in TYPE_BITS:
+        for d in (-1, 0, 1):
+            v = (1 << k) + d
+            if v <= M:
+                out += [v, -v]
+    return out
+
+
+_TB = None
+
+
 def coeff(rng):
     """A coefficient in [-M, M], biased towards the places where code branches."""
-    k = rng.randrange(16)
+    global _TB
+    k = rng.randrange(17)
+    if k == 16:
+        if _TB is None:
+            _TB = type_boundary_coeffs()
+        return rng.choice(_TB)
     if k == 0:
         c = rng.choice((0, 1, 2, 5, 9, 10))
     elif k == 1:
